@@ -387,6 +387,46 @@ theorem fd_inner_suffix (tokens : List String) (hd : (fdClassify tokens).action 
         refine ⟨first :: more, by simp, fdAfterExec_suffix _ _ _ hfe, ?_⟩
         simp [fdClassify, hlen, hfe, delegate]
 
+theorem uvRunSkip_suffix (b : Bool) (l : List String) : uvRunSkip b l <:+ l := by
+  induction l generalizing b with
+  | nil => cases b <;> simp [uvRunSkip]
+  | cons t rest ih =>
+    cases b with
+    | true => simp only [uvRunSkip]; exact List.IsSuffix.trans (ih false) (List.suffix_cons t rest)
+    | false =>
+      simp only [uvRunSkip]
+      split
+      · split
+        · exact List.IsSuffix.trans (ih true) (List.suffix_cons t rest)
+        · exact List.IsSuffix.trans (ih false) (List.suffix_cons t rest)
+      · exact List.suffix_refl _
+
+/-- uv run: the delegated text is the re-quoting of a non-empty suffix of the words after `uv run` -/
+theorem uv_run_inner_suffix (tokens : List String) (hd : (uvRunClassify tokens).action = "delegate") :
+    ∃ inner, inner ≠ [] ∧ inner <:+ tokens.drop 2 ∧ (uvRunClassify tokens).innerCommand = some (bashJoin inner) := by
+  unfold uvRunClassify at hd ⊢
+  cases hs : uvRunSkip false (tokens.drop 2) with
+  | nil => simp [hs, ask] at hd
+  | cons first more =>
+    refine ⟨first :: more, by simp, ?_, by simp [delegate]⟩
+    rw [← hs]; exact uvRunSkip_suffix _ _
+
+/-- tar: an option that makes tar run a program of the caller's choosing is never approved, whatever else is on the line -/
+theorem tar_program_option_asks (tokens : List String) (other : String) (h : tarRunsOther (tokens.drop 1) = some other) :
+    (tarClassify tokens).action = "ask" := by
+  unfold tarClassify
+  simp only [h]
+  rfl
+
+/-- tar: every `--to-command` is part of the delegated text -/
+theorem tar_all_to_commands (tokens : List String) (hno : tarRunsOther (tokens.drop 1) = none)
+    (hne : ((tarToCommands (tokens.drop 1)).filter (fun c => !c.isEmpty)).isEmpty = false) :
+    (tarClassify tokens).action = "delegate" ∧
+      (tarClassify tokens).innerCommand = some ("\n".intercalate ((tarToCommands (tokens.drop 1)).filter (fun c => !c.isEmpty))) := by
+  unfold tarClassify
+  simp only [hno, hne, Bool.not_false, ↓reduceIte]
+  exact ⟨rfl, rfl⟩
+
 /-- kubectl exec: exactly the words after the first `--` -/
 theorem kubectlExecInner_spec (l inner : List String) (hi : kubectlExecInner l = some inner) :
     inner ≠ [] ∧ ∃ pre, l = pre ++ "--" :: inner ∧ "--" ∉ pre := by
